@@ -16,12 +16,15 @@ import (
 	"net/http/httptest"
 	"os"
 	"os/exec"
+	"os/signal"
 	"path/filepath"
+	"runtime"
 	"sort"
 	"strconv"
 	"strings"
 	"sync"
 	"sync/atomic"
+	"syscall"
 	"time"
 
 	"github.com/go-resty/resty/v2"
@@ -2594,8 +2597,21 @@ func runDropDuringHook(st *cv.Stats) interface{} {
 // panic there (e.g. a send on a closed notifications channel) ends the process and cannot be recovered in-process.
 // The parent then reports the journal of the sequence that was running as a failing input of the implementation.
 func supervise(out string) {
+	// the child must not outlive this process (a timeout of the check kills the parent only): parent-death signal,
+	// which is tied to the forking thread, hence the lock
+	runtime.LockOSThread()
 	args := append([]string{"-child"}, os.Args[1:]...)
 	cmd := exec.Command(os.Args[0], args...)
+	cmd.SysProcAttr = &syscall.SysProcAttr{Pdeathsig: syscall.SIGKILL}
+	sigs := make(chan os.Signal, 1)
+	signal.Notify(sigs, syscall.SIGTERM, syscall.SIGINT)
+	go func() {
+		<-sigs
+		if cmd.Process != nil {
+			_ = cmd.Process.Kill()
+		}
+		os.Exit(143)
+	}()
 	cmd.Stdout = os.Stdout
 	var errbuf strings.Builder
 	cmd.Stderr = &errbuf
@@ -2742,7 +2758,7 @@ func main() {
 	if thorough {
 		nWS, nOps = 800, 40
 	}
-	flaky := 0
+	flaky, skipped, badSeqs := 0, 0, 0
 	// ---- WebSocket: the fixed witness of the known finding C18/subscribe-straddles-reconnect (every run)
 	jlog("=== WebSocket: Subscribe() straddling a reconnect")
 	if f := runStraddleWitness(st); f != nil {
@@ -2757,6 +2773,20 @@ func main() {
 		coq, d, failed, oracle := runWSCase(r, st, nOps+r.Intn(8), i)
 		for _, o := range oracle {
 			fails = append(fails, map[string]interface{}{"what": "WebSocket client: " + o, "ops": d.Ops})
+		}
+		if len(oracle) > 0 || strings.Contains(coq, "WCallHang") {
+			badSeqs++
+		}
+		if badSeqs >= 8 {
+			// enough failing histories; a broken client makes every further sequence wait for its timeouts
+			st.Extra["ws_sequences_not_run_after_failures"] = nWS - i - 1
+			addCase(coq, d)
+			break
+		}
+		if strings.HasPrefix(failed, "connect: ") || failed == "no accept" {
+			// the sequence never started (the test server could not be reached: ports, load): not an observation
+			skipped++
+			continue
 		}
 		if failed != "" {
 			// the driver lost synchronisation with the client: a missing frame / return is itself an observation
@@ -2791,6 +2821,7 @@ func main() {
 	}
 	st.Extra["ws_sequences"] = nWS
 	st.Extra["ws_driver_failures"] = flaky
+	st.Extra["ws_sequences_skipped_no_connection"] = skipped
 	st.ImplFailures = append(st.ImplFailures, fails...)
 	if err := w.Flush(); err != nil {
 		panic(err)
